@@ -389,7 +389,7 @@ def stepSuper (d : DState) (toks : List String) : Option (DState × String) :=
   match toks with
   | ["sup", "init", mn, mx, wm, ek] =>
     some ({ d with supc := { min := n mn, max := n mx, warm := n wm, errKill := n ek }, sups := {} }, "ok")
-  | ["sup", "fork"] => go .forkGate
+  | ["sup", "fork", a] => go (.forkGate (n a))
   | ["sup", "failed"] => go .forkFailed
   | ["sup", "set", a] => go (.setWorker (n a))
   | ["sup", "del", a] => go (.delWorker (n a))
